@@ -3,7 +3,9 @@ package main
 // C11 — votes are pooled only for claims identical in every effect-bearing field.
 
 import (
+	"fmt"
 	"go/types"
+	"os"
 	"sort"
 	"strings"
 
@@ -179,6 +181,33 @@ func rulesC11(w *World, o *Out) {
 				}
 			}
 		}
+		// allow-list form of the same rule: between the claim's fields and the hash only formatting and
+		// injective encodings (fmt, strconv, String() of sdk number/coin types, the hash itself)
+		if lossy == "" {
+			for _, r := range Returns(ch) {
+				if len(r.Ret.Results) == 0 {
+					continue
+				}
+				_, calls := fl.Influence(r.Ret.Results[0])
+				var odd []string
+				for c := range calls {
+					cal, okc := CalleeOf(c.Common())
+					if !okc {
+						continue
+					}
+					if os.Getenv("PCDUMP") == "claimhashcalls" {
+						fmt.Fprintf(os.Stderr, "CLAIMHASHCALL %s %s\n", name, cal.String())
+					}
+					if !claimHashFormatter(cal) {
+						odd = append(odd, cal.String())
+					}
+				}
+				sort.Strings(odd)
+				if len(odd) > 0 {
+					lossy = strings.Join(odd, ", ")
+				}
+			}
+		}
 		o.Check("C11.R1", name+"|hash input is not normalised", lossy == "", w.Pos(ch.Pos()),
 			"the claim hash passes the field values through "+lossy+", which maps different values to the same bytes (dropped / cleaned elements, case folding, trimming): claims that differ in a free-form field are pooled into one attestation")
 		R := w.fieldsRead(T, excl)
@@ -255,6 +284,27 @@ func rulesC11(w *World, o *Out) {
 			}
 		}
 		o.Check("C11.R3", fn+"|store prefixed by chain, keyed by nonce and claim hash", okS && okK, w.Pos(f.Pos()), "attestations must live under GetStore(chainReferenceID) at GetAttestationKey(nonce, hash)")
+		if fn == "GetAttestation" {
+			// exact lookup: the attestation handed back is the record stored under exactly that key (a range
+			// seek would hand a vote for one claim the attestation of another claim at the same nonce)
+			um := FindCalls(f, false, func(c Callee) bool { return c.Name == "MustUnmarshal" || c.Name == "Unmarshal" })
+			o.Count("C11.R3 decode sites in GetAttestation", len(um), 1)
+			for _, u := range um {
+				okX := false
+				if len(u.Args()) >= 2 {
+					if g, isG := canon(u.Args()[len(u.Args())-2]).(*ssa.Call); isG {
+						if cal, okc := CalleeOf(g.Common()); okc && cal.Name == "Get" && len(g.Call.Args) >= 1 {
+							for _, k := range gk {
+								if canon(g.Call.Args[len(g.Call.Args)-1]) == ssa.Value(k.Value()) {
+									okX = true
+								}
+							}
+						}
+					}
+				}
+				o.Check("C11.R3", "GetAttestation|returns the record stored under exactly the key asked for", okX, w.Pos(u.Instr.Pos()), "the decoded bytes must be store.Get(GetAttestationKey(eventNonce, claimHash)); an iterator positioned at that key yields the next attestation of the nonce when the exact one does not exist")
+			}
+		}
 	}
 	// callers pass the claim's own chain / nonce / hash
 	for _, fn := range []string{"Attest", "TryAttestation"} {
@@ -301,6 +351,28 @@ func isLossyStringFunc(c Callee) bool {
 		}
 	case "unicode", "golang.org/x/text/cases", "golang.org/x/text/unicode/norm":
 		return true
+	}
+	return false
+}
+
+// claimHashFormatter: the functions through which claim fields may reach the claim hash (formatting and
+// injective encodings only; the list is what the claim types use today, confirmed by reading).
+func claimHashFormatter(c Callee) bool {
+	if c.Static != nil && isNewHelper(c.Static) {
+		return true // a helper introduced later: the calls it makes are judged themselves
+	}
+	if (c.Pkg == "strings" || c.Pkg == "bytes") && (c.Name == "Join" || c.Recv == "Builder" || c.Recv == "Buffer") {
+		return true
+	}
+	switch c.Pkg {
+	case "fmt", "strconv", "encoding/binary", "encoding/hex", "github.com/cometbft/cometbft/crypto/tmhash", "crypto/sha256":
+		return true
+	}
+	if c.Name == "String" && (c.Pkg == "cosmossdk.io/math" || c.Pkg == "github.com/cosmos/cosmos-sdk/types") {
+		return true // String() of sdk number / coin types
+	}
+	if strings.HasPrefix(c.Name, "Get") && strings.HasSuffix(c.Pkg, "/x/skyway/types") && strings.HasSuffix(c.Recv, "Claim") {
+		return true // generated getters of the claim itself
 	}
 	return false
 }
